@@ -108,6 +108,16 @@ def gen_variants(src: str, qualname: str, kinds=('break', 'twin')) -> List[Tuple
         r = edit(n, parents, fn)
         if r is False:
             return
+        if kind == 'twin+helper':
+            helper = getattr(fn, '_helper', None)
+            owner = None
+            for c in ast.walk(tree):
+                if isinstance(c, ast.ClassDef) and fn in c.body:
+                    owner = c
+            if getattr(helper, 'name', None) is None or owner is None:
+                return
+            owner.body.append(helper)
+            kind = 'twin'
         ast.fix_missing_locations(tree)
         try:
             new = ast.unparse(tree)
@@ -257,6 +267,8 @@ def gen_variants(src: str, qualname: str, kinds=('break', 'twin')) -> List[Tuple
                 if not is_elif:
                     variant(i, e, 'twin', 'temporary for the guard')
     if 'twin' in kinds:
+        _structural_twins(src, qualname, fn0, order0, parents0, variant)
+    if 'twin' in kinds:
         # rename one local
         locs = []
         params = {a.arg for a in fn0.args.args + fn0.args.kwonlyargs}
@@ -276,6 +288,103 @@ def gen_variants(src: str, qualname: str, kinds=('break', 'twin')) -> List[Tuple
             F.body.insert(1 if _is_docstring(F.body[0]) else 0, ast.Pass())
         variant(0, e, 'twin', 'pass inserted')
     return out
+
+
+def _names(node, ctx_type):
+    return {n.id for n in ast.walk(node) if isinstance(n, ast.Name) and isinstance(n.ctx, ctx_type)}
+
+
+def _has_ctl(node) -> bool:
+    return any(isinstance(n, (ast.Yield, ast.YieldFrom, ast.Return, ast.Break, ast.Continue, ast.Raise, ast.Assert))
+               for n in ast.walk(node))
+
+
+def _self_reads(node):
+    return {n.attr for n in ast.walk(node) if isinstance(n, ast.Attribute) and isinstance(n.ctx, ast.Load)
+            and isinstance(n.value, ast.Name) and n.value.id == 'self'}
+
+
+def _self_writes(node):
+    out = set()
+    for n in ast.walk(node):
+        if isinstance(n, ast.Attribute) and isinstance(n.ctx, ast.Store) and isinstance(n.value, ast.Name) and n.value.id == 'self':
+            out.add(n.attr)
+    return out
+
+
+def _structural_twins(src, qualname, fn0, order0, parents0, variant):
+    """behaviour-preserving restructurings: nested if for `and`, early return for a trailing if/else,
+    adjacent independent field assignments swapped, a guard-free block extracted into a helper method"""
+    params = {a.arg for a in fn0.args.args + fn0.args.kwonlyargs}
+    is_method = bool(fn0.args.args) and fn0.args.args[0].arg == 'self'
+    for i, n in enumerate(order0):
+        # (b) if a and b: X   ->   if a: if b: X        (no else)
+        if isinstance(n, ast.If) and not n.orelse and isinstance(n.test, ast.BoolOp) and isinstance(n.test.op, ast.And) \
+                and len(n.test.values) == 2:
+            def e(m, P, F):
+                a, b = m.test.values
+                m.test = a
+                m.body = [ast.If(test=b, body=m.body, orelse=[])]
+            variant(i, e, 'twin', '`if a and b` as nested ifs')
+        # (c) trailing if/else of the function body -> early return
+        if isinstance(n, ast.If) and n.orelse and parents0.get(n) is fn0 and fn0.body and fn0.body[-1] is n \
+                and not any(isinstance(x, (ast.Yield, ast.YieldFrom)) for x in ast.walk(fn0)):
+            def e(m, P, F):
+                rest = m.orelse
+                m.orelse = []
+                if not isinstance(m.body[-1], (ast.Return, ast.Raise)):
+                    m.body.append(ast.Return(value=None))
+                F.body.extend(rest)
+            variant(i, e, 'twin', 'trailing if/else as early return')
+        # (d) swap two adjacent independent plain assignments
+        par = parents0.get(n)
+        if isinstance(n, (ast.Assign, ast.AugAssign)) and par is not None:
+            for fld in ('body', 'orelse'):
+                blk = getattr(par, fld, None)
+                if isinstance(blk, list) and n in blk:
+                    k = blk.index(n)
+                    if k + 1 < len(blk) and isinstance(blk[k + 1], (ast.Assign, ast.AugAssign)):
+                        a, b = n, blk[k + 1]
+                        calls = any(isinstance(x, (ast.Call, ast.Yield, ast.YieldFrom, ast.Subscript)) for x in list(ast.walk(a)) + list(ast.walk(b)))
+                        wa, wb = _self_writes(a) | _names(a, ast.Store), _self_writes(b) | _names(b, ast.Store)
+                        ra, rb = _self_reads(a) | _names(a, ast.Load), _self_reads(b) | _names(b, ast.Load)
+                        if isinstance(a, ast.AugAssign):
+                            ra |= wa
+                        if isinstance(b, ast.AugAssign):
+                            rb |= wb
+                        nonself = any(isinstance(x, ast.Attribute) and isinstance(x.ctx, ast.Store) and not (isinstance(x.value, ast.Name) and x.value.id == 'self')
+                                      for x in list(ast.walk(a)) + list(ast.walk(b)))
+                        if not calls and not nonself and not (wa & (wb | rb)) and not (wb & ra):
+                            def e(m, P, F, fld=fld):
+                                bl = getattr(P.get(m), fld)
+                                j = bl.index(m)
+                                bl[j], bl[j + 1] = bl[j + 1], bl[j]
+                            variant(i, e, 'twin', 'adjacent independent assignments swapped')
+        # (a) extract a block that uses only self and parameters into a helper method
+        if is_method and isinstance(n, (ast.If, ast.Assign, ast.AugAssign, ast.Expr)) and parents0.get(n) is fn0 \
+                and not _has_ctl(n) and not (isinstance(n, ast.Expr) and isinstance(n.value, ast.Constant)):
+            loads = _names(n, ast.Load) - {'self'}
+            stores = _names(n, ast.Store)
+            import builtins
+            free = {x for x in loads if x not in params and not hasattr(builtins, x)}
+            # module-level names (imports, globals) are fine inside a method too
+            mod_names = {t.id for t in ast.walk(ast.parse(src)) if isinstance(t, ast.Name)} if False else set()
+            locals_assigned = {x.id for st in fn0.body for x in ast.walk(st) if isinstance(x, ast.Name) and isinstance(x.ctx, ast.Store)}
+            if not (free & locals_assigned) and not stores and 'super' not in loads:
+                used_params = [a.arg for a in fn0.args.args[1:] if a.arg in loads]
+                def e(m, P, F, used=used_params):
+                    cls = None
+                    tree_cls = P.get(F)
+                    helper = ast.FunctionDef(name='_extracted_helper', args=ast.arguments(
+                        posonlyargs=[], args=[ast.arg(arg='self')] + [ast.arg(arg=u) for u in used], kwonlyargs=[], kw_defaults=[], defaults=[]),
+                        body=[m], decorator_list=[], returns=None, type_comment=None, type_params=[])
+                    call = ast.Expr(value=ast.Call(func=ast.Attribute(value=ast.Name(id='self', ctx=ast.Load()), attr='_extracted_helper', ctx=ast.Load()),
+                                                   args=[ast.Name(id=u, ctx=ast.Load()) for u in used], keywords=[]))
+                    F.body[F.body.index(m)] = call
+                    F._helper = helper
+                    return None
+                # the helper has to be attached to the class: done through a marker handled below
+                variant(i, e, 'twin+helper', 'block extracted into a helper method')
 
 
 def _run_one(args):
